@@ -45,6 +45,11 @@ from harness._C10_spec import Pgm
 
 PROPERTY = 'C10'
 
+
+def _is_here_doc_atom(name: str) -> bool:
+    """atoms hd0.. are the here-document bodies of the kernel K3:here-doc (registered in sp.A for that kernel only)"""
+    return name.startswith('hd') and name[2:].isdigit()
+
 STUB_SUBPROCESS = ('process_executor.subprocess -> recorder (contract: subprocess.call hands args/stdin/stdout/stderr/'
                    'env/timeout/shell to the OS, the child inherits the cwd of the caller, its exit code is returned; '
                    'ValueError / OSError / TimeoutExpired are the failures it may raise)')
@@ -390,6 +395,8 @@ def _k2_cases(tier: str) -> List[K2Case]:
          ('P3', Pgm('ref', 'P2', ['plain2'], stdin='string-sq'))], act_stdin='sym3')
     if tier == 'thorough':
         for a in sp.A:
+            if _is_here_doc_atom(a):
+                continue  # here-documents span lines and must stand last on their line: they have their own kernel (K3:here-doc)
             add('arg1/' + a, Pgm('ref', 'P1', [a]), [('P1', Pgm('sys', 'b', [a]))])
         add('chain/3-full', Pgm('ref', 'P3', ['sym1', 'rest'], stdin='string', trans='strip'),
             [('P1', Pgm('sys', 'base', ['list'], stdin='here-doc', trans=None)),
@@ -797,7 +804,7 @@ def _k3_cases(tier: str) -> List[K3Case]:
                 add('text-source/file-' + t, act=sys_(['plain']), files=[t], cd=True)
             add('file-actor/stdin-' + t, actor='file', act=['sym'], setup_stdin=t)
         for a in sp.A:
-            if a != 'rest':
+            if a != 'rest' and not _is_here_doc_atom(a):
                 add('arg/' + a, act=Pgm('ref', 'P1', [a, 'sym1']), defs=[('P1', sys_([a]))])
         add('chain/3', act=Pgm('ref', 'P3', ['sym', 'rest'], stdin='string'),
             defs=[('P1', Pgm('shell', 'c @[S1]@', head_value=[sp.C('c '), sp.S(1)], stdin='here-doc')),
